@@ -54,10 +54,14 @@ pub struct Action {
     /// chunk (a connection cut exactly at the end of the body: every requested byte has arrived)
     #[serde(default)]
     pub omit_last_chunk: bool,
+    /// (k, ms): after k body bytes have been sent the server is silent for ms milliseconds, then carries on with the rest of
+    /// the body (a slow server, not a failing one)
+    #[serde(default)]
+    pub pause_after: Option<(usize, u32)>,
 }
 impl Default for Action {
     fn default() -> Self {
-        Action { status: 206, body: Body::Range, cut_after: None, drop: false, pieces: vec![], chunked: false, pace_us: 0, declared_len: None, redirect_self: false, stall_ms: 0, omit_last_chunk: false }
+        Action { status: 206, body: Body::Range, cut_after: None, drop: false, pieces: vec![], chunked: false, pace_us: 0, declared_len: None, redirect_self: false, stall_ms: 0, omit_last_chunk: false, pause_after: None }
     }
 }
 
@@ -227,8 +231,20 @@ fn handle(mut s: TcpStream, data: &Arc<Vec<u8>>, script: &Script, index: usize, 
     let mut sent = 0usize;
     let mut piece_i = 0usize;
     let mut ok = true;
+    let mut paused = false;
     while sent < limit && ok {
-        let psz = if action.pieces.is_empty() { limit - sent } else { action.pieces[piece_i % action.pieces.len()].max(1) };
+        let mut psz = if action.pieces.is_empty() { limit - sent } else { action.pieces[piece_i % action.pieces.len()].max(1) };
+        if let Some((k, ms)) = action.pause_after {
+            if !paused && sent >= k {
+                paused = true;
+                std::thread::sleep(std::time::Duration::from_millis(ms as u64));
+            } else if !paused && sent + psz > k {
+                psz = k - sent; // stop this piece at the pause point
+            }
+        }
+        if psz == 0 {
+            continue;
+        }
         piece_i += 1;
         let n = psz.min(limit - sent);
         if action.chunked {
